@@ -99,6 +99,9 @@ def gen_case(rnd):
                  ('target', {'project': {'id': 'p1'}, 'name': 'n'}), ('empty', {})]
         rnd.shuffle(items)                      # nested mappings before, between and after plain keys
         target = dict(items[:rnd.randint(3, len(items))])
+        if rnd.random() < 0.15:
+            # a target file is given, but it holds nothing (or only empty mappings): that is an EMPTY target, not "no file"
+            target = rnd.choice([{}, {'target': {'project': {}}}, {'empty': {}}, {'a': {'b': {}}}])
     return dict(rules=rules, token=tok, sample=sample, target=target, is_admin=rnd.random() < 0.5,
                 rule=rnd.choice([None, None, None, 'svc:a', 'ghost:x', 'helper', 'alias:x']), fmt=rnd.choice(['json', 'yaml']))
 
